@@ -1212,6 +1212,9 @@ func collectCallNames(instrs []ssa.Instruction, names map[string]bool, seen map[
 			continue
 		}
 		names[calleeName(c)] = true
+		if qn := calleeQName(c); qn != "" {
+			names[qn] = true
+		}
 		if cal := c.StaticCallee(); cal != nil && !seen[cal] && depth < 7 && cal.Pkg != nil && strings.HasPrefix(cal.Pkg.Pkg.Path(), "github.com/cloudwego/hertz") {
 			seen[cal] = true
 			for _, b := range cal.Blocks {
